@@ -100,6 +100,19 @@ theorem C07_poll_total_and_empty_only_if_empty (s : St) :
     split at h <;> simp at h
     rename_i hc; exact ⟨hc, h.symm⟩
 
+/-- **TakeWithTimeout: a timeout never costs a value.**  The timeout branch of the select is enabled whenever a
+    consumer waits (time is nondeterminism: also while a value is available or is being handed over); it consumes
+    the waiter and nothing else, and the state it leaves is again reachable — so the conservation law holds after
+    it and the value that raced with the timeout is still the next one delivered.  (That the waiter is consumed
+    EITHER by `recvTake`/a handoff OR by `recvTimeout` is the atomicity of Go's `select`; the first four
+    conjuncts restate the atom and are listed for the reader, the last two are the content.) -/
+theorem C07_timeout_loses_nothing (c b : Nat) (s s' : St) (h : Reach c b s) (hs : step s .recvTimeout = some s') :
+    s'.chan = s.chan ∧ s'.pool = s.pool ∧ s'.accepted = s.accepted ∧ s'.delivered = s.delivered ∧
+    Reach c b s' ∧ s'.delivered ++ s'.chan ++ optl s'.inflight ++ s'.pool = s'.accepted := by
+  have hr : Reach c b s' := reach_step h hs
+  refine ⟨?_, ?_, ?_, ?_, hr, C07_fifo c b s' hr⟩ <;>
+    (simp only [step] at hs; split at hs <;> simp at hs; subst hs; rfl)
+
 /-- **Count at quiescence**: with no Offer and no loader pass in progress, `Count()` (= len(channel) +
     pool.Count()) equals accepted minus delivered -/
 theorem C07_count (c b : Nat) (s : St) (h : Reach c b s) (hq : s.lock = .free) :
@@ -185,14 +198,14 @@ def holdMeasure (s : St) : Nat := passMeasure s
     Offer one atom after `Lock`: Offer, notifyWorkers (Poll/Take/GetChannel) and Count wait for the lock only
     boundedly -/
 theorem C07_lock_hold_bounded (s s' : St) (a : Act) (h : step s a = some s') (hl : s.lock ≠ .free)
-    (ha : a ≠ .recvWait ∧ a ≠ .recvTake ∧ a ≠ .tryRecv ∧ a ≠ .pollEmpty ∧ a ≠ .loaderWake) :
+    (ha : a ≠ .recvWait ∧ a ≠ .recvTake ∧ a ≠ .recvTimeout ∧ a ≠ .tryRecv ∧ a ≠ .pollEmpty ∧ a ≠ .loaderWake) :
     s'.lock = .free ∨ (s'.lock = s.lock ∧ holdMeasure s' < holdMeasure s) := by
   cases a <;> simp only [step] at h <;> (repeat' split at h) <;> simp at h <;> (try subst h) <;>
     simp_all [holdMeasure, passMeasure] <;> omega
 
 /-- no deadlock under the lock: whoever holds it has an enabled atom -/
 theorem C07_lock_holder_enabled (c b : Nat) (s : St) (h : Reach c b s) (hl : s.lock ≠ .free) :
-    ∃ a, (step s a).isSome ∧ a ≠ .recvWait ∧ a ≠ .recvTake ∧ a ≠ .tryRecv ∧ a ≠ .pollEmpty ∧ a ≠ .loaderWake ∧
+    ∃ a, (step s a).isSome ∧ a ≠ .recvWait ∧ a ≠ .recvTake ∧ a ≠ .recvTimeout ∧ a ≠ .tryRecv ∧ a ≠ .pollEmpty ∧ a ≠ .loaderWake ∧
       a ≠ .notify := by
   have i := reach_inv h
   cases hk : s.lock with
@@ -343,5 +356,26 @@ theorem C07_guards_consumers :
     Gen.bcqGuardsOf "GetChannel" = some ["return q.blockingQueue"] ∧
     Gen.bcqGuardsOf "Put" = some ["return q.Offer(val)"] ∧
     Gen.bcqGuardsOf "notifyWorkers" = some ["if q.isClosed.Get()", "return"] := by decide +kernel
+
+/-- constructor wiring (review R3; the skeleton only says that three channels are made): the wake-up channel has
+    capacity 1 (`token : Bool`), the data channel gets `channelCapacity` (`c`), the overflow bound is
+    `bufferSizeMaximum` (`b`), and a ChannelQueue of capacity k is `make(chan T, k)` -/
+theorem C07_guards_constructor :
+    Gen.bcqGuardsOf "NewBufferedChannelQueue" = some ["field loadWorkerCh: NewChannelQueue[int](1)",
+      "field blockingQueue: NewChannelQueue[T](channelCapacity)", "field pool: pool",
+      "field bufferSizeMaximum: bufferSizeMaximum"] ∧
+    Gen.bcqGuardsOf "NewChannelQueue" = some ["return make(ChannelQueue[T], capacity)"] := by decide +kernel
+
+/-- what the six ChannelQueue wrappers return in each branch of their select / receive (`chTrySend`, `chTryRecv`:
+    nil | Full, value | Closed (`!ok`) | Empty, and the two timeouts) -/
+theorem C07_guards_chq :
+    Gen.bcqGuardsOf "ChannelQueue.Put" = some ["return nil"] ∧
+    Gen.bcqGuardsOf "ChannelQueue.PutWithTimeout" = some ["return nil", "return ErrQueuePutTimeout"] ∧
+    Gen.bcqGuardsOf "ChannelQueue.Take" = some ["set val, ok := <-q", "if !ok", "return *new(T), ErrQueueIsClosed", "return val, nil"] ∧
+    Gen.bcqGuardsOf "ChannelQueue.TakeWithTimeout" = some ["set val, ok := <-q", "if !ok", "return *new(T), ErrQueueIsClosed",
+      "return val, nil", "return *new(T), ErrQueueTakeTimeout"] ∧
+    Gen.bcqGuardsOf "ChannelQueue.Offer" = some ["return nil", "return ErrQueueIsFull"] ∧
+    Gen.bcqGuardsOf "ChannelQueue.Poll" = some ["set val, ok := <-q", "if !ok", "return *new(T), ErrQueueIsClosed",
+      "return val, nil", "return *new(T), ErrQueueIsEmpty"] := by decide +kernel
 
 end FpgoVerif.C07
